@@ -69,6 +69,11 @@ type GenOpts struct {
 	NoFunds        bool
 	Holders        bool
 	Rotations      bool // draw Case.Rot
+	// Whale: users own 2^250 of every denom, and amounts / fees / deposits at the edge of what a 255-bit Int holds occur
+	// (sums of pooled fees, re-minted refunds and converted values then approach the overflow of the arithmetic)
+	Whale bool
+	// BlockTimes: draw the average-block-time parameters instead of leaving the defaults
+	BlockTimes bool
 }
 
 var ethIds = []string{
@@ -146,6 +151,12 @@ func GenConfig(t *rapid.T, o GenOpts) sim.Config {
 	}
 	// a short signed-signer-set window lets BeginBlocker prune observed signer sets within a history
 	cfg.SignerSetWindow = rapid.SampledFrom([]uint64{1, 3, 10000, 10000}).Draw(t, "sswindow")
+	if o.BlockTimes {
+		// average block times (params): external chains faster and slower than the hub (0 = the defaults 5000 / 15000 / 5000)
+		cfg.AvgBlockTime = rapid.SampledFrom([]uint64{0, 0, 1000, 5000, 6000, 20000}).Draw(t, "avgblock")
+		cfg.AvgEthBlockTime = rapid.SampledFrom([]uint64{0, 0, 3000, 13000, 15000}).Draw(t, "avgeth")
+		cfg.AvgBscBlockTime = rapid.SampledFrom([]uint64{0, 0, 3000, 5000, 400}).Draw(t, "avgbsc")
+	}
 	prices := []string{"0.001", "1", "3", "1500.5", "250"}
 	for d := 0; d < nd; d++ {
 		cfg.Prices = append(cfg.Prices, sim.PriceCfg{Name: denomNames[d], Value: pick(t, "price", prices)})
@@ -185,6 +196,14 @@ func genAmount(t *rapid.T, label string, big200 bool) string {
 	}
 }
 
+// whale values: powers of two near the top of the Int range
+func genWhale(t *rapid.T, label string, bits []int) string {
+	b := bits[rapid.IntRange(0, len(bits)-1).Draw(t, label+"-wbits")]
+	x := new(big.Int).Lsh(big.NewInt(1), uint(b))
+	x.Sub(x, big.NewInt(rapid.Int64Range(0, 2).Draw(t, label+"-woff")))
+	return x.String()
+}
+
 func genFee(t *rapid.T, label string) string {
 	k := rapid.IntRange(0, 9).Draw(t, label+"-class")
 	switch {
@@ -199,7 +218,7 @@ func genFee(t *rapid.T, label string) string {
 
 var defaultWeights = map[string]int{
 	"send": 30, "cancel": 7, "reqbatch": 7, "deposit": 4, "transfer": 6, "exec": 4,
-	"tick": 2, "hb": 1, "relay": 5, "block": 24, "burst": 0, "xexec": 14, "xtick": 7, "send2": 4, "hostile": 0, "oprice": 0, "oholders": 0, "sign": 0, "byz": 0, "xround": 0, "xlag": 0,
+	"tick": 2, "hb": 1, "relay": 5, "block": 24, "burst": 0, "xexec": 14, "xtick": 7, "send2": 4, "hostile": 0, "oprice": 0, "oholders": 0, "sign": 0, "byz": 0, "xround": 0, "xlag": 0, "xwhale": 0,
 }
 
 // GenOps draws the operation list for a configuration.
@@ -217,7 +236,7 @@ func GenOps(t *rapid.T, cfg sim.Config, o GenOpts) []Op {
 	if o.Bursts && w["burst"] == 0 {
 		w["burst"] = 2
 	}
-	kinds := []string{"send", "cancel", "reqbatch", "deposit", "transfer", "exec", "tick", "hb", "relay", "block", "burst", "xexec", "xtick", "send2", "hostile", "oprice", "oholders", "sign", "byz", "xround", "xlag"}
+	kinds := []string{"send", "cancel", "reqbatch", "deposit", "transfer", "exec", "tick", "hb", "relay", "block", "burst", "xexec", "xtick", "send2", "hostile", "oprice", "oholders", "sign", "byz", "xround", "xlag", "xwhale"}
 	total := 0
 	for _, k := range kinds {
 		total += w[k]
@@ -266,6 +285,14 @@ func GenOps(t *rapid.T, cfg sim.Config, o GenOpts) []Op {
 			op.A = genAmount(t, "amt", o.BigAmounts)
 			op.F = genFee(t, "fee")
 			op.R = rapid.IntRange(0, 3).Draw(t, "r")
+			if o.Whale {
+				switch rapid.IntRange(0, 9).Draw(t, "whale") {
+				case 0:
+					op.F = genWhale(t, "fee", []int{120, 200, 230, 240, 249})
+				case 1:
+					op.A = genWhale(t, "amt", []int{240, 249, 252, 253})
+				}
+			}
 		case "burst":
 			op.U = rapid.IntRange(0, 2).Draw(t, "u")
 			op.C = chainGen.Draw(t, "c")
@@ -273,6 +300,9 @@ func GenOps(t *rapid.T, cfg sim.Config, o GenOpts) []Op {
 			op.N = rapid.SampledFrom([]int{30, 66, 70, 101, 120}).Draw(t, "n")
 			op.A = fmt.Sprint(rapid.Int64Range(100, 5000).Draw(t, "amt"))
 			op.F = rapid.SampledFrom([]string{"0", "5", "seq"}).Draw(t, "feemode")
+			if o.Whale && rapid.IntRange(0, 3).Draw(t, "whale") == 0 {
+				op.F = genWhale(t, "fee", []int{200, 230, 240, 243}) // every send of the burst carries it
+			}
 		case "cancel":
 			op.U = rapid.IntRange(0, 2).Draw(t, "u")
 			op.C = chainGen.Draw(t, "c")
@@ -288,6 +318,9 @@ func GenOps(t *rapid.T, cfg sim.Config, o GenOpts) []Op {
 			op.D = denomGen.Draw(t, "d")
 			op.A = genAmount(t, "amt", o.BigAmounts)
 			op.T = lag(t)
+			if o.Whale && rapid.IntRange(0, 7).Draw(t, "whale") == 0 {
+				op.A = genWhale(t, "amt", []int{250, 253, 254, 255})
+			}
 		case "transfer":
 			op.C = chainGen.Draw(t, "c")
 			op.D = denomGen.Draw(t, "d")
@@ -323,6 +356,14 @@ func GenOps(t *rapid.T, cfg sim.Config, o GenOpts) []Op {
 			op.R = rapid.IntRange(0, 7).Draw(t, "pick")
 			op.A = genFee(t, "feepaid")
 			op.T = rapid.SampledFrom([]int64{1, 5, 5, 21}).Draw(t, "dt")
+		case "xwhale":
+			// macro: 2^255-scale values against the sums the blockers compute (see interp)
+			op.U = rapid.IntRange(0, 2).Draw(t, "u")
+			op.C = chainGen.Draw(t, "c")
+			op.D = denomGen.Draw(t, "d")
+			op.N = rapid.IntRange(0, 1).Draw(t, "variant")
+			op.R = rapid.IntRange(0, 11).Draw(t, "r")
+			op.T = rapid.SampledFrom([]int64{5, 21, 61, 100000}).Draw(t, "dt")
 		case "xlag":
 			// macro: quiet stretch, batch, fresh observation, second batch of the token, clock moves (see interp)
 			op.U = rapid.IntRange(0, 2).Draw(t, "u")
@@ -388,6 +429,9 @@ func GenCase(o GenOpts) func(t *rapid.T) interface{} {
 		}
 		if !o.NoFunds {
 			c.Funds = "1000000000000000000000000000000000000000000000000000000000000000"
+			if o.Whale && rapid.IntRange(0, 2).Draw(t, "whale-funds") == 0 {
+				c.Funds = new(big.Int).Lsh(big.NewInt(1), 250).String()
+			}
 		}
 		if rapid.IntRange(0, 9).Draw(t, "prelude") < 8 {
 			c.Ops = Prelude()
